@@ -26,7 +26,7 @@ SynthCodes  == {0, OV_ENOTAUDIOc, OV_EBADPACKETc}
 
 \* mm is the blocking machine evolved by the MODEL ALONE since the last (re)start (never re-synchronised to the observation while `pure`):
 \* a slip in bookkeeping the caller cannot see at once (sample_count, granulepos) shows up as a wrong count later.
-InitDec == [nh |-> 0, live |-> FALSE, inited |-> FALSE, B |-> <<0, 0>>, hs |-> 0, hsdirty |-> FALSE, m |-> DecRestart(<<0, 0>>, 0),
+InitDec == [nh |-> 0, live |-> FALSE, inited |-> FALSE, initfailed |-> FALSE, B |-> <<0, 0>>, hs |-> 0, hsdirty |-> FALSE, m |-> DecRestart(<<0, 0>>, 0),
             mm |-> DecRestart(<<0, 0>>, 0), pure |-> FALSE,
             prev |-> -1, prevclean |-> FALSE, lastk |-> -1, chunkclean |-> FALSE, gpforced |-> FALSE]
 
@@ -42,9 +42,9 @@ ChkHeaderIn(s, e) ==
   (IF e.ret \notin HeaderCodes THEN {"HeaderInReturnsDocumentedCode"} ELSE {}) \cup
   (IF e.mut = 0 /\ e.which = s.nh /\ e.which < 3 /\ ~s.inited /\ e.ret # 0 THEN {"ValidHeaderAccepted"} ELSE {}) \cup
   (IF e.which \in {3, 4} /\ e.ret = 0 THEN {"NonHeaderRefused"} ELSE {})
-NxtHeaderIn(s, e) == IF e.ret = 0 /\ e.mut = 0 /\ e.which = s.nh /\ e.which < 3 THEN [s EXCEPT !.nh = s.nh + 1]
-                     ELSE IF e.ret = 0 /\ e.mut = 1 THEN [s EXCEPT !.nh = 9]           \* a damaged header was accepted: nothing is promised about what follows
-                     ELSE s
+NxtHeaderIn(s, e) == IF e.ret = 0 /\ e.mut = 0 /\ e.which = s.nh /\ e.which < 3 THEN [s EXCEPT !.nh = s.nh + 1, !.initfailed = FALSE]
+                     ELSE IF e.ret = 0 /\ e.mut = 1 THEN [s EXCEPT !.nh = 9, !.initfailed = FALSE]           \* a damaged header was accepted: nothing is promised about what follows
+                     ELSE [s EXCEPT !.initfailed = FALSE]                                            \* (a refused header may have cleared the info)
 
 ChkHalfRate(s, e) ==
   (IF e.ret \notin {0, -1} THEN {"HalfRateReturnsDocumentedCode"} ELSE {}) \cup
@@ -58,9 +58,11 @@ ChkSynthInit(s, e) ==
   (IF e.ret \notin {0, 1, -1} THEN {"SynthesisInitReturnsDocumentedCode"} ELSE {}) \cup
   (IF s.nh = 3 /\ e.ret # 0 THEN {"InitSucceedsAfterHeaders"} ELSE {}) \cup
   (IF s.nh < 3 /\ e.ret = 0 THEN {"InitNeedsAllHeaders"} ELSE {}) \cup
-  (IF s.nh = 3 /\ e.ret = 0 /\ ~StateMatches(DecRestart(s.B, e.hsp), e) THEN {"FreshDecoderHoldsNothing"} ELSE {})
-NxtSynthInit(s, e) == IF e.ret = 0 THEN [s EXCEPT !.inited = TRUE, !.hs = e.hsp, !.hsdirty = FALSE, !.m = Observed(e, e.hsp), !.mm = DecRestart(s.B, e.hsp), !.pure = (s.nh = 3),
-                                                     !.prev = -1, !.prevclean = FALSE, !.lastk = -1, !.chunkclean = FALSE, !.gpforced = FALSE] ELSE s
+  (IF s.nh = 3 /\ e.ret = 0 /\ ~StateMatches(DecRestart(s.B, e.hsp), e) THEN {"FreshDecoderHoldsNothing"} ELSE {}) \cup
+  \* an initialisation that was refused (the codebooks of the set-up cannot be built) is refused again as long as no header has been submitted since
+  (IF s.initfailed /\ e.ret = 0 THEN {"RefusedInitStaysRefused"} ELSE {})
+NxtSynthInit(s, e) == IF e.ret # 0 THEN [s EXCEPT !.initfailed = TRUE] ELSE [s EXCEPT !.inited = TRUE, !.hs = e.hsp, !.hsdirty = FALSE, !.m = Observed(e, e.hsp), !.mm = DecRestart(s.B, e.hsp), !.pure = (s.nh = 3),
+                                                     !.prev = -1, !.prevclean = FALSE, !.lastk = -1, !.chunkclean = FALSE, !.gpforced = FALSE]
 
 (* ---- audio packets ---- *)
 \* e.trk = TRUE for vorbis_synthesis_trackonly
